@@ -344,7 +344,13 @@ class LaplaceTransformer(UnilateralForwardTransformer):
             if (expr.is_Mul and len(expr.args) == 2 and
                 isinstance(expr.args[0], sym.DiracDelta) and
                     isinstance(expr.args[1], (AppliedUndef, sym.Subs))):
-                return expr.args[1]
+                # Sifting property: delta(a * t + b) * v(t)
+                scale, shift = scale_shift(expr.args[0].args[0], t)
+                t0 = -shift / scale
+                if t0.is_negative:
+                    return 0
+                return (const * expr.args[1].subs(t, t0) *
+                        sym.exp(-s * t0) / abs(scale))
 
             if expr.has(sym.Derivative):
                 return self.derivative_undef(expr, t, s, **kwargs) * const
